@@ -39,15 +39,44 @@ def correspondence(ctx):
 
 
 def search(ctx):
+    """the model no longer reproduces the real order on some pairs: put those pairs, every valid prefix of
+    their texts and a few fresh versions to the laws, then a larger random pool"""
+    by_scheme = {}
+    for d in ctx.tie_broken:
+        if d.get("scheme") and d.get("a") is not None:
+            by_scheme.setdefault(d["scheme"], []).append((d["a"], d["b"]))
+    for name, pairs in by_scheme.items():
+        cls = S.vclass(name)
+        for (a, b) in pairs[:6]:
+            texts = []
+            for s in (a, b):
+                for i in range(len(s), 0, -1):
+                    if s[:i] not in texts:
+                        texts.append(s[:i])
+            pool = []
+            for t in texts:
+                try:
+                    pool.append((t, cls(t)))
+                except Exception:  # noqa: BLE001
+                    pass
+                if len(pool) >= 24:
+                    break
+            rng = ctx.rng("c01-search", name, a, b)
+            pool += [p for p in A.valid_pool(name, rng, 6) if p[0] not in [t for t, _ in pool]]
+            _laws(ctx, 0, only=name, pool=pool, stream="laws-search:" + name)
+            if ctx.rep.violations:
+                return
     _laws(ctx, 70)
 
 
-def _laws(ctx, psize):
+def _laws(ctx, psize, only=None, pool=None, stream=None):
     """the five laws on the real operators over all triples of a pool"""
-    for name in A.ALL:
-        rng = ctx.rng("c01-pool", name, psize)
-        pool = A.valid_pool(name, rng, psize)
-        stream = "laws:" + name
+    given = pool
+    for name in ([only] if only else A.ALL):
+        if given is None:
+            rng = ctx.rng("c01-pool", name, psize)
+            pool = A.valid_pool(name, rng, psize)
+        stream = ("laws:" + name) if given is None else stream
         lt = {}
         gt = {}
         for (sa, a) in pool:
